@@ -190,6 +190,40 @@ var c18HookCases = []struct {
 	{"unwrap", `any w as x { x == 7 }`, "T"}, {"unwrap", `all w as x { x != 9 }`, "T"}, {"unwrap", `w.0 == 7`, "T"}, {"identity", `any l as x { x == "secret" }`, "T"}, {"nil", `any l as x { x == "secret" }`, "T"},
 }
 
+// c18OddIndices: an identity hook (or a nil hook) is a no-op also for the
+// index spellings pointerstructure reads in its own way (leading zeros are
+// octal, 0x.., underscores) - compared real against real, no reference.
+var c18IndexData = func() *univ.Node {
+	var items []*univ.Node
+	for i := 0; i < 20; i++ {
+		items = append(items, univ.Int(int64(i)))
+	}
+	tl := univ.Slice(univ.SliceOf(univ.TInt))
+	tl.Items = items
+	return univ.IfaceMap("list", univ.IfaceSlice(items...), "tl", tl, "m", univ.IfaceMap("010", univ.Int(1), "08", univ.Int(2)))
+}()
+
+var c18IndexExprs = []string{`list.010 == 8`, `list.010 == 10`, `list.08 == 8`, `"/list/011" == 9`, `list["010"] == 8`, `list.0x10 == 16`, `list.1_0 == 10`, `tl.010 == 8`, `tl.09 == 9`, `list.007 == 7`, `m.010 == 1`, `m.08 == 2`,
+	`any list as i, x { x == 8 } and list.010 == 8`, `list.00 == 0`, `list.019 == 19`, `list.+1 == 1`, `list[" 1"] == 1`}
+
+func c18OddIndices(c *mon.Ctx, idx int) {
+	e := c18IndexExprs[(idx/10)%len(c18IndexExprs)]
+	var outs []string
+	for _, l := range [][]optSpec{nil, {{kind: "hook", hook: "identity"}}, {{kind: "hook", hook: "nil"}}, {{kind: "tag", tag: "bexpr"}}, {{kind: "hook", hook: "identity"}, {kind: "unknown", unk: univ.Str("u")}}, {{kind: "unknown", unk: univ.Str("u")}}} {
+		o, ok, cerr := c18Eval(e, c18IndexData, l)
+		c.Evals(1)
+		if !ok {
+			outs = append(outs, "create-failed:"+cerr)
+			continue
+		}
+		outs = append(outs, o.Class3())
+	}
+	if outs[0] != outs[1] || outs[0] != outs[2] || outs[0] != outs[3] || outs[4] != outs[5] {
+		c.Violation("C18 neutral-option-changes-odd-index", "a neutral option (identity hook, nil hook, tag bexpr) changed the outcome of a selector with an unusual index spelling", map[string]any{"expression": e, "outcomes_none_identity_nil_tag_identity+unknown_unknown": outs})
+	}
+	c.Count("odd_index_neutrality")
+}
+
 func c18HookFixed(c *mon.Ctx, idx int) {
 	cs := c18HookCases[(idx/10)%len(c18HookCases)]
 	o, ok, cerr := c18Eval(cs.expr, c18HookData, []optSpec{{kind: "hook", hook: cs.hook}})
@@ -220,6 +254,9 @@ func c18Run(c *mon.Ctx, idx int) {
 	r := c.RNG(idx)
 	if idx%10 == 0 {
 		c18HookFixed(c, idx)
+	}
+	if idx%10 == 5 {
+		c18OddIndices(c, idx)
 	}
 	doc := univ.GenObj(r, 3, true)
 	node := univ.Represent(rand.New(rand.NewSource(r.Int63())), doc, univ.Policy{Mode: idx % 5, Hidden: true, HiddenSeed: 3})
@@ -439,7 +476,7 @@ func init() {
 		NumCases:    func(tier string) int { return tierN(tier, 5000, 250000) },
 		Run:         c18Run,
 		Required: func(tier string) []string {
-			return []string{"fixed_hook_cases", "rel:permutation", "rel:last-wins", "rel:insufficient-budget-refused", "rel:nil-hook-clears", "rel:caller-slice-not-aliased", "rel:neutral-identity-hook", "rel:neutral-nil-hook", "rel:neutral-tag-bexpr", "rel:neutral-budget-0", "rel:neutral-budget-above-steps", "rel:neutral-budget-equal-steps", "rel:neutral-budget-huge",
+			return []string{"fixed_hook_cases", "odd_index_neutrality", "rel:permutation", "rel:last-wins", "rel:insufficient-budget-refused", "rel:nil-hook-clears", "rel:caller-slice-not-aliased", "rel:neutral-identity-hook", "rel:neutral-nil-hook", "rel:neutral-tag-bexpr", "rel:neutral-budget-0", "rel:neutral-budget-above-steps", "rel:neutral-budget-equal-steps", "rel:neutral-budget-huge",
 				"rel:neutral-unknown-when-all-resolve", "outcome:T", "outcome:F", "outcome:E", "hook_changed_outcome:props.hookUnwrap", "hook_changed_outcome:props.hookConst", "tag_changed_outcome", "unknown_changed_outcome",
 				"options_in_list:0", "options_in_list:3", "options_in_list:4"}
 		},
